@@ -1,4 +1,5 @@
 import Vore.Driver.Print
+import Vore.Driver.Ops
 /-!
 # Driver — line protocol: one case per input line, one result line per case.
 `<id> TAB <op> TAB <field> …`
@@ -23,6 +24,10 @@ def handleRun (fields : List String) : String :=
 def handle (line : String) : String :=
   match line.splitOn "\t" with
   | id :: "run" :: fields => id ++ "\t" ++ handleRun fields
+  | id :: op :: fields =>
+    match Vore.Driver.extraOps.findSome? (fun h => h op fields) with
+    | some r => id ++ "\t" ++ r
+    | none => id ++ "\tBADOP"
   | id :: _ => id ++ "\tBADOP"
   | [] => "BADLINE"
 
